@@ -244,7 +244,7 @@ def make_driver(name: str, w: World, version: int, token, key, idle=None):
     return drive
 
 
-def execute(version: int, phase: str, crafter, driver: str):
+def execute(version: int, phase: str, crafter, driver: str, reply_delay: float = None):
     w = World()
     token, key = filler("c09/tok", 64), filler("c09/key", 32)
     sent = []
@@ -277,7 +277,7 @@ def execute(version: int, phase: str, crafter, driver: str):
             pkt = crafter(req)
             sent.append(pkt)
             if pkt:
-                req.send(pkt)
+                req.send(pkt) if reply_delay is None else req.send(pkt, reply_delay)
             return
         for p in req.responses:
             req.send(p)
@@ -365,6 +365,12 @@ def run_shard(shard, tier) -> Stats:
                     r2 = execute(2, "data", lambda req: pkt, driver)
                     det.check((str(res[0]), res[2]), (str(r2[0]), r2[2]), case)
                 oc = judge(st, case, driver, res[0], res[2], f"v2 cipher={cipher} sig={sig}")
+                if driver in ("send", "refresh") and sig == "valid" and (trunc is not None or lf in ("n+1", 0xFFFF)):
+                    # the same short / over-announced reply arriving late within the read timeout (and just before it ends)
+                    for delay in (1.5, 1.99):
+                        r3 = execute(2, "data", lambda req: pkt, driver, reply_delay=delay)
+                        judge(st, {**case, "reply_delay": delay}, driver, r3[0], r3[2], f"v2 cipher={cipher} sig={sig} late reply")
+                        st.ev(("v2", a, lf, cipher, sig, trunc, driver, delay), f"{driver}:{exc_class(r3[0])}", True)
                 st.ev(("v2", a, lf, cipher, sig, trunc, driver), f"{driver}:{oc}", True,
                       sample=None if (lf, cipher, sig, trunc, driver) != ("n", "badpad", "valid", None, "send") else {**case, "packet": pkt.hex()})
     elif kind == "v3":
@@ -504,7 +510,7 @@ def replay(case):
         res = execute(case["proto"], case["phase"], lambda req: raw, case["driver"])
     elif case["proto"] == 2:
         pkt = craft_v2(bytes.fromhex(case["marker"]), case["length"], case["cipher"], case["sig"], case["trunc"])
-        res = execute(2, case.get("phase", "data"), lambda req: pkt, case["driver"])
+        res = execute(2, case.get("phase", "data"), lambda req: pkt, case["driver"], reply_delay=case.get("reply_delay"))
     else:
         phase = case["phase"]
 
